@@ -400,9 +400,15 @@ impl Res {
 pub const GUARDED_CALLS: &[&str] = &[
     "continue_maximally",
     "choose_path_string",
+    "choose_path_string(keep call stack)",
+    "choose_path_string(with arguments)",
+    "choose_path_string(unknown path)",
     "evaluate_function",
+    "evaluate_function(with arguments)",
+    "evaluate_function(unknown)",
     "reset_state",
     "switch_flow",
+    "switch_flow(existing flow)",
     "observe_variable",
     "remove_variable_observer",
     "bind_external_function",
@@ -609,6 +615,8 @@ impl<'p> Host<'p> {
         // every call protected by `if_async_we_cant` must be refused and change nothing
         for name in GUARDED_CALLS {
             let knot = self.prog.info.knots.first().cloned().unwrap_or_else(|| "nowhere".into());
+            let knot2 = self.prog.info.knots.last().cloned().unwrap_or_else(|| "nowhere".into());
+            let flows = self.flows_alive();
             let func = self.prog.info.functions.first().cloned().unwrap_or_else(|| knot.clone());
             let var = self.prog.info.globals.first().cloned().unwrap_or_else(|| "novar".into());
             let peer = self.obs_peers[3].clone();
@@ -616,6 +624,22 @@ impl<'p> Host<'p> {
             let r: Result<(), Res> = match *name {
                 "continue_maximally" => self.guard(|s| s.continue_maximally().map(|_| ())),
                 "choose_path_string" => self.guard(|s| s.choose_path_string(&knot, true, None)),
+                // the same refusal whatever the arguments: valid or not, with or without a call-stack reset
+                "choose_path_string(keep call stack)" => self.guard(|s| s.choose_path_string(&knot2, false, None)),
+                "choose_path_string(with arguments)" => self.guard(|s| s.choose_path_string(&knot, false, Some(&vec![ValueType::Int(1)]))),
+                "choose_path_string(unknown path)" => self.guard(|s| s.choose_path_string("no_such_knot_probe", false, None)),
+                "evaluate_function(with arguments)" => self.guard(|s| {
+                    let mut out = String::new();
+                    s.evaluate_function(&func, Some(&vec![ValueType::Int(1), ValueType::Int(2)]), &mut out).map(|_| ())
+                }),
+                "evaluate_function(unknown)" => self.guard(|s| {
+                    let mut out = String::new();
+                    s.evaluate_function("no_such_function_probe", None, &mut out).map(|_| ())
+                }),
+                "switch_flow(existing flow)" => {
+                    let f = flows.iter().find(|f| f.as_str() != "DEFAULT_FLOW").cloned().unwrap_or_else(|| "paused_probe_flow2".into());
+                    self.guard(|s| s.switch_flow(&f))
+                }
                 "evaluate_function" => self.guard(|s| {
                     let mut out = String::new();
                     s.evaluate_function(&func, None, &mut out).map(|_| ())
